@@ -2,14 +2,18 @@
 C06 — The topic store implements MQTT filter matching over any subscribe history.
 
 Property theorems only.  Model: `Model/Topics.lean` (tries of maps +
-`nextTopicLevel`, as repaired by the four `fix:` commits B1, B2, B5, B4).
+`nextTopicLevel`, as repaired by the five `fix:` commits B1, B2, B5, B4, B6).
 Specification: `Spec/Match.lean` (§4.7) and `Spec/TopicStore.lean`.
 
 Hypotheses.  `noEmptyLevel s`: no empty level (finding B3, the one deviation
 left).  `good s`: `noEmptyLevel s` and `s` does not begin with '$' - topics
 beginning with '$' are outside the property's quantifier (§4.7.2); the five
 entry points of `MemTopics` turn them away (`C06_dollar_topics_rejected`).  A
-'$' anywhere else is an ordinary character ("a/$b" is good).
+'$' anywhere else is an ordinary character ("a/$b" is good).  `admitted s`
+(histories): `noEmptyLevel s` or `s` is the empty topic - which is not a topic
+(MQTT-4.7.3-1) and which the entry points turn away as well since finding B6 was
+repaired (`C06_empty_topic_rejected`), so it no longer has to be kept out of
+the histories.
 -/
 import Mqtt.Proofs.TopicsRetainedHistory
 import Mqtt.Proofs.XlateTopics
@@ -105,10 +109,11 @@ theorem C06_pruned_preserved (n : SNode) (ls : List Level) (hwf : WF n) (hp : Pr
 /-- Store refinement over histories.  `mrun` folds the driver's `modelStep`
 (the function the differential runs tie to topics/memtopics.go), `srun` folds
 the specification's `step`.  If no topic argument in the history has an empty
-level, the trie is well-formed and holds exactly the abstract store's
-subscriptions.  (Operations on topics beginning with '$' may occur in the
-history: the store turns them away, the specification ignores them.) -/
-theorem C06_store_refines (ops : List Op) (hg : ∀ op ∈ ops, noEmptyLevel (opTopic op) = true) :
+level - the empty topic itself is allowed (`admitted`) - the trie is
+well-formed and holds exactly the abstract store's subscriptions.  (Operations
+on topics beginning with '$' and on the empty topic may occur in the history:
+the store turns them away, the specification ignores or rejects them.) -/
+theorem C06_store_refines (ops : List Op) (hg : ∀ op ∈ ops, admitted (opTopic op) = true) :
     WF (mrun ops).sroot ∧
     (abs (mrun ops).sroot).Perm ((srun ops).subs.map (fun e => (split e.filter, e.sub, e.qos))) :=
   ⟨(run_inv_any ops hg).wf, (run_inv_any ops hg).perm⟩
@@ -131,13 +136,14 @@ theorem C06_subscribers_full_counterexample : ¬ C06_subscribers_full := by
   cases hr
   exact absurd hp.length_eq (by decide)
 
-/-- The part that holds: for every history without empty levels and every
+/-- The part that holds: for every history of admitted topics (no empty level,
+or the empty topic) and every
 valid name without empty levels that does not begin with '$' (`good`),
 `Subscribers` reports exactly the still-subscribed (subscriber, filter) pairs
 whose filter matches the name under section 4.7, each with QoS min(publish QoS,
 subscription QoS). -/
 theorem C06_subscribers_partial (ops : List Op) (t : List UInt8) (q : Nat)
-    (hg : ∀ op ∈ ops, noEmptyLevel (opTopic op) = true) (hgt : good t = true)
+    (hg : ∀ op ∈ ops, admitted (opTopic op) = true) (hgt : good t = true)
     (hn : validName t = true) (hq : q ≤ 2) :
     ∃ r, (mrun ops).subscribers t q = some r ∧
       r.Perm (((srun ops).subs.filter (fun e => topicMatches e.filter t)).map (fun e => (e.sub, min q e.qos))) :=
@@ -154,14 +160,18 @@ theorem C06_spec_answer (s : Mqtt.Spec.TopicStore.S) (t : List UInt8) (q : Nat)
   simp [Mqtt.Spec.TopicStore.step, hd, hq', hn]
 
 /-- An invalid filter is rejected without side effects (on the entries) -
-whether or not it begins with '$'. -/
+whether or not it begins with '$', and also when it is the empty filter. -/
 theorem C06_invalid_filter_rejected (mt : MemTopics) (f : List UInt8) (q s : Nat)
-    (hwf : WF mt.sroot) (hg : noEmptyLevel f = true) (hv : validFilter f = false) :
+    (hwf : WF mt.sroot) (hg : admitted f = true) (hv : validFilter f = false) :
     (mt.subscribe 2 f q s).2 = none ∧ (abs (mt.subscribe 2 f q s).1.sroot).Perm (abs mt.sroot) := by
-  have hl := (levels_spec f hg).2 hv
-  cases hd : checkSys f with
+  cases hd : checkTopic f with
   | true => rw [subscribe_of_sys _ _ _ _ _ hd]; exact ⟨rfl, List.Perm.refl _⟩
   | false =>
+    have hg : noEmptyLevel f = true := by
+      rcases admitted_cases f hg with h | h
+      · exact h
+      · exact absurd h ((checkTopic_false_iff f).mp hd).1
+    have hl := (levels_spec f hg).2 hv
     rw [subscribe_of_not_sys _ _ _ _ _ hd]
     unfold SNode.sinsert
     cases validQos q with
@@ -182,26 +192,57 @@ theorem C06_dollar_topics_rejected (mt : MemTopics) (t : List UInt8) (hd : dolla
 
 example : dollar [36, 83, 89, 83] = true ∧ dollar [97, 47, 36, 98] = false := by decide
 
-/-- What the calls report, after any history without empty levels: for a `good`
+/-- Finding B6, repaired: the empty topic - neither a topic name nor a topic
+filter (MQTT-4.7.3-1: at least one character) - is turned away by every entry
+point of the store and the store is left exactly as it was.  (Before the repair
+`Subscribe` put the subscriber on the root node of the trie and granted its
+QoS.)  Consequently no entry point reaches the root node of either trie: the
+levels an entry point walks are never "no level, successfully". -/
+theorem C06_empty_topic_rejected (mt : MemTopics) :
+    ((∀ mq q s, mt.subscribe mq [] q s = (mt, none)) ∧ (∀ sub, mt.unsubscribe [] sub = (mt, false)) ∧
+     (∀ q, mt.subscribers [] q = none) ∧ (∀ m : RMsg, m.topic = [] → mt.retain m = (mt, false)) ∧
+     mt.retained [] = none) ∧
+    ∀ t, entryLevels t ≠ ([], true) :=
+  ⟨empty_rejected mt, entryLevels_ne_root⟩
+
+/-- the specification agrees: the empty filter is invalid (`err`, state unchanged) -/
+example (s : Mqtt.Spec.TopicStore.S) (q sub : Nat) :
+    validFilter [] = false ∧ validName [] = false ∧
+    ((Mqtt.Spec.TopicStore.step s (.sub [] q sub)).1.subs = s.subs) := by
+  refine ⟨by decide, by decide, ?_⟩
+  simp only [Mqtt.Spec.TopicStore.step]
+  split
+  · rfl
+  · split
+    · rfl
+    · rfl
+
+/-- `admitted` is exactly: no empty level, or the empty topic. -/
+theorem C06_admitted_iff (s : List UInt8) : admitted s = true ↔ noEmptyLevel s = true ∨ s = [] := by
+  simp [admitted]
+
+/-- What the calls report, after any history of admitted topics: for a `good`
 filter `Subscribe` grants the requested QoS exactly when the filter is valid
 (and QoS <= 2), `Unsubscribe` succeeds exactly when the abstract store holds
 that (subscriber, filter) pair - the outcomes the specification's `step`
 prescribes (`granted q` / `ok` / `err`). -/
 theorem C06_outcomes_partial (ops : List Op) (f : List UInt8) (q s : Nat)
-    (hg : ∀ op ∈ ops, noEmptyLevel (opTopic op) = true) (hgf : good f = true) :
+    (hg : ∀ op ∈ ops, admitted (opTopic op) = true) (hgf : good f = true) :
     ((mrun ops).subscribe 2 f q s).2 = (if q ≤ 2 ∧ validFilter f = true then some q else none) ∧
     ((mrun ops).unsubscribe f (some s)).2 = (srun ops).subs.any (fun e => e.sub == s && e.filter == f) :=
   ⟨subscribe_outcome (mrun ops) f q s hgf,
     unsubscribe_outcome (mrun ops) (srun ops).subs f s (run_inv_any ops hg) hgf⟩
 
 /-- non-vacuity: a history with re-subscription, removal, an invalid filter, a
-'$'-led level below the first ("a/$b") and a filter beginning with '$'
-("$SYS/#", turned away) -/
+'$'-led level below the first ("a/$b"), a filter beginning with '$'
+("$SYS/#", turned away) and the empty filter (subscribed, unsubscribed,
+"unsubscribe all": turned away) -/
 example :
     let ops : List Op := [.sub [97, 47, 43] 1 1, .sub [97, 47, 35] 2 2, .sub [97, 47, 43] 0 1,
                           .sub [97, 35] 1 3, .sub [97, 47, 98, 43] 1 5, .sub [98] 1 4, .unsub [98] 4,
-                          .sub [97, 47, 36, 98] 2 6, .sub [36, 83, 89, 83, 47, 35] 1 7]
-    (∀ op ∈ ops, noEmptyLevel (opTopic op) = true) ∧ good [97, 47, 98] = true ∧ validName [97, 47, 98] = true ∧
+                          .sub [97, 47, 36, 98] 2 6, .sub [36, 83, 89, 83, 47, 35] 1 7,
+                          .sub [] 1 8, .unsub [] 1, .unsubAll []]
+    (∀ op ∈ ops, admitted (opTopic op) = true) ∧ good [97, 47, 98] = true ∧ validName [97, 47, 98] = true ∧
       (mrun ops).subscribers [97, 47, 98] 1 = some [(1, 0), (2, 1)] ∧
       good [97, 47, 36, 98] = true ∧ validName [97, 47, 36, 98] = true ∧
       (mrun ops).subscribers [97, 47, 36, 98] 1 = some [(1, 0), (2, 1), (6, 1)] ∧
@@ -309,8 +350,9 @@ theorem C06_retained_pruned_preserved (n : RNode) (ls : List Level) (hwf : RWF n
     (∀ m, RPruned (n.rinsertL ls true m)) ∧ (∀ ok, RPruned (n.rremoveL ls ok).1) :=
   ⟨fun m => rinsertL_RPruned ls m n hp, fun ok => rremoveL_RPruned ls ok n hwf hp⟩
 
-/-- Over histories of admitted operations (`okOp`: no empty level, retained
-topics are valid names; topics beginning with '$' may occur) the retained trie
+/-- Over histories of admitted operations (`okOp`: no empty level or the empty
+topic, retained topics are valid names or empty; topics beginning with '$' may
+occur) the retained trie
 holds exactly the abstract store's retained messages (the last non-empty
 message per topic). -/
 theorem C06_retained_store_refines (ops : List Op) (hg : ∀ op ∈ ops, okOp op = true) :
@@ -338,7 +380,8 @@ theorem C06_retained_full_counterexample : ¬ C06_retained_full := by
   exact absurd hp.length_eq (by decide)
 
 /-- The part that holds: after any history of admitted operations (`okOp`: no
-empty level, retained topics are valid names) and for every valid filter
+empty level or the empty topic, retained topics are valid names or empty) and
+for every valid filter
 without empty levels that does not begin with '$' (`good`), `Retained` returns
 exactly the last non-empty message of every topic matching the filter under
 section 4.7. -/
@@ -349,10 +392,12 @@ theorem C06_retained_partial (ops : List Op) (f : List UInt8)
   retained_refines (mrun ops) (srun ops).rets f (run_rinv_any ops hg) hgf hv
 
 /-- non-vacuity: replace, clear a child (the parent's message survives), a
-retained PUBLISH on "$S" (turned away), query with `#` and `+` -/
+retained PUBLISH on "$S" and one on the empty topic (turned away), query with
+`#` and `+` -/
 example :
     let ops : List Op := [.retain [97] 1 [1], .retain [97, 47, 98] 0 [2], .retain [97, 47, 98] 0 [3],
-                          .retain [97, 47, 99] 1 [4], .retain [97, 47, 99] 0 [], .retain [36, 83] 1 [9]]
+                          .retain [97, 47, 99] 1 [4], .retain [97, 47, 99] 0 [], .retain [36, 83] 1 [9],
+                          .retain [] 1 [7], .retained []]
     (∀ op ∈ ops, okOp op = true) ∧ good [97, 47, 35] = true ∧ validFilter [97, 47, 35] = true ∧
       ((mrun ops).retained [97, 47, 35]).map (·.map toRet) = some [⟨[97], 1, [1]⟩, ⟨[97, 47, 98], 0, [3]⟩] ∧
       ((mrun ops).retained [97, 47, 43]).map (·.map toRet) = some [⟨[97, 47, 98], 0, [3]⟩] := by decide
